@@ -71,11 +71,17 @@ def requests(ctx):
     multi = [s for s in lc.small_scope(6 if quick else 7) if "+" in s]
     hist = [("cx_split_hist", lc.split_history(rng, rng.choice(multi))) for _ in range(900 if quick else 12000)]
     hist += [("cx_split_hist", lc.split_history(rng, s, names=("a", "b", "c"))) for s in big[: (60 if quick else 1500)] if "+" in s]
+    # identical strands with a structure that is NOT symmetric under the same shift, as components and as pre-existing
+    # complexes in other rotations
+    rep = [s for s in multi if any(len(set(map(len, [s.split("+")[i] for i in ids]))) < len(ids) for ids in lc.components(s))]
+    rep += ["(.+.)+(.+.)", ".(+).+(.+.)", "(.+.)+..", "(.+.)+.(+).", "((+.)+.)+.", "(.+(.+.).)+..", ".(+)(+).+.(+)(+)."]
+    hist += [("cx_split_hist", lc.split_history(rng, s, seq=lc.periodic_seq(s))) for s in rep * (3 if quick else 10)][: (600 if quick else 8000)]
     batches["split_objects/histories"] = hist
     return batches, origin, small, big
 
 
 def run(ctx):
+    from common import run_impl, Err
     res = prove(ctx)
     runner = ensure_model_runner()
     diffs = []
@@ -133,13 +139,17 @@ def run(ctx):
         cases += [{"s": s, "seq": gs.seq_for(rng, s, names=("a", "b"))} for s in big[:300]]
         out = run_oracle("c09.py", {"cases": cases})
         found = []
+        hd = [d[1] for d in diffs if d[1][0] == "cx_split_hist"][:20]
+        for rq, r in zip(hd, run_impl([("cx_split_hist_check", q[1]) for q in hd]) if hd else []):
+            if isinstance(r, Err) or r:
+                found.append({"key": {"history": rq[1]}, "input": {"history": rq[1]}, "what": str(r),
+                              "snippet": f"# harness op cx_split_hist_check {rq[1]!r} (harness/impl/loops.py)"})
         for f in out["failures"][:10]:
             found.append({"key": {"s": f["s"]}, "input": {"s": f["s"], "seq": f["seq"]}, "what": f["what"],
                           "snippet": snippet(f["s"], f["seq"])})
         return found
 
     # the recorded finding is replayed on every run (prints KNOWN-FINDING while it still fails)
-    from common import run_impl, Err
     w = run_impl([("c09_split_twice_witness", None)])[0]
     if isinstance(w, Err) or w[0] == "raised" or not w[1]:
         ctx.violation("counterexample", {
@@ -172,6 +182,15 @@ def replay(data):
     inp = data.get("input")
     if not inp:
         print("replay file names a broken proof/correspondence link only:", json.dumps(data.get("broken_links"))[:2000])
+        return 1
+    if isinstance(inp, dict) and "history" in inp:
+        from common import run_impl, Err
+        r = run_impl([("cx_split_hist_check", inp["history"])])[0]
+        print(r)
+        return 1 if (isinstance(r, Err) or r) else 0
+    if inp == "c09_split_twice_witness":
+        from common import run_impl
+        print(run_impl([("c09_split_twice_witness", None)])[0])
         return 1
     out = run_oracle("c09.py", {"cases": [inp]})
     print(json.dumps(out))
